@@ -123,7 +123,7 @@ Proof.
   destruct (exit_agg_props ks s HInv) as (HI1 & Hv1 & Hf1 & Hm1).
   set (s1 := exit_agg ks s) in *.
   destruct (negb (pess s1) && match agg s1 with Some _ => true | None => false end); [exact HI1|].
-  destruct (lo_early o); [exact HI1|].
+  destruct (early_exists s1 ks); [exact HI1|].
   destruct (filter (need_lock s1) ks) as [|k0 r0] eqn:Ek; [exact HI1|]. rewrite <- Ek.
   destruct (loie && negb rv); [exact HI1|].
   destruct (loie && (negb (committer s1) || match primary s1 with None => true | Some _ => false end) && many (filter (need_lock s1) ks)); [exact HI1|].
@@ -142,7 +142,7 @@ Proof.
     apply in_cur_findk with s1; auto. unfold need_lock in En.
     apply andb_true_iff in En. destruct En as [En _]. apply negb_true_iff in En. auto.
   - simpl. destruct HI1 as (HI & HL & HC).
-    apply (finish_lock_Inv _ rv ce loie [] 0 s1 []); auto.
+    apply (finish_lock_Inv _ rv ce loie [] 0 false s1 []); auto.
     + intros a Ha. lia.
     + intros p [].
 Qed.
@@ -154,6 +154,8 @@ Proof.
   - apply Inv_written; auto.
   - apply Inv_written; auto.
   - apply Inv_presume. apply Inv_written; auto.
+  - apply Inv_presume; auto.
+  - destruct (findk k (written s)); auto; apply Inv_presume; auto.
   - destruct Hapi. apply Inv_lock_keys; auto.
   - apply Inv_agg_start; auto.
   - apply Inv_agg_retry; auto.
